@@ -259,3 +259,7 @@ Definition spec_ok (c : case) (o : sx) : bool :=
            | _ => false
            end
   end.
+
+(* the region of the known finding slurm-gpus-zero-omitted (see known_findings.jsonl) *)
+Definition known_region (c : case) : bool :=
+  match c with CSlurm r => opt_eqb Z.eqb (gpus r) (Some 0%Z) | _ => false end.
